@@ -21,17 +21,117 @@ type sel struct {
 	sels    []*sel
 	noBrace bool // field rendered without a selection set even though sels may be expected
 	braces  bool // field rendered with an (empty-looking) selection set although it is a leaf
+	dir     *dirUse
+	tag     bool // carries the behaviour-less directive @tag
+}
+
+// @include / @skip on a selection: the condition is a constant or a Boolean! variable of the operation
+type dirUse struct {
+	skip bool   // @skip (else @include)
+	v    string // variable name, "" = constant
+	c    bool   // the constant
+}
+
+func (u *dirUse) render() string {
+	n := "include"
+	if u.skip {
+		n = "skip"
+	}
+	if u.v != "" {
+		return " @" + n + "(if: $" + u.v + ")"
+	}
+	return fmt.Sprintf(" @%s(if: %v)", n, u.c)
+}
+
+// selected under the variable values vars?
+func (s *sel) selected(vars map[string]interface{}) bool {
+	if s.dir == nil {
+		return true
+	}
+	c := s.dir.c
+	if s.dir.v != "" {
+		c = vars[s.dir.v].(bool)
+	}
+	return c != s.dir.skip
+}
+
+func (s *sel) dirText() string {
+	t := ""
+	if s.dir != nil {
+		t += s.dir.render()
+	}
+	if s.tag {
+		t += " @tag"
+	}
+	return t
+}
+
+// the selections that remain under the variable values (directives evaluated and dropped)
+func pruneSels(sels []*sel, vars map[string]interface{}) []*sel {
+	var out []*sel
+	for _, s := range sels {
+		if !s.selected(vars) {
+			continue
+		}
+		c := *s
+		c.dir, c.tag = nil, false
+		c.sels = pruneSels(s.sels, vars)
+		if s.kind != 's' && len(s.sels) > 0 && len(c.sels) == 0 {
+			// everything below was skipped: the field / fragment stays with an empty selection, which
+			// the text could not say; the generator of documents avoids this (see decorate)
+			c.sels = nil
+		}
+		out = append(out, &c)
+	}
+	return out
+}
+
+func (d *doc) prune(vars map[string]interface{}) *doc {
+	e := &doc{}
+	for _, op := range d.ops {
+		e.ops = append(e.ops, &opDef{typ: op.typ, name: op.name, sels: pruneSels(op.sels, vars)})
+	}
+	for _, f := range d.frags {
+		e.frags = append(e.frags, &fragDef{name: f.name, cond: f.cond, sels: pruneSels(f.sels, vars)})
+	}
+	return e
+}
+
+func selsHaveDirs(sels []*sel) bool {
+	for _, s := range sels {
+		if s.dir != nil || s.tag || selsHaveDirs(s.sels) {
+			return true
+		}
+	}
+	return false
+}
+
+func (d *doc) hasDirs() bool {
+	for _, op := range d.ops {
+		if op.tag || selsHaveDirs(op.sels) {
+			return true
+		}
+	}
+	for _, f := range d.frags {
+		if f.tag || selsHaveDirs(f.sels) {
+			return true
+		}
+	}
+	return false
 }
 
 type fragDef struct {
 	name, cond string
 	sels       []*sel
+	tag        bool
 }
 
 type opDef struct {
 	typ  string // query | mutation
 	name string // "" = anonymous
 	sels []*sel
+	vars []string // Boolean! variables (conditions of @include / @skip)
+	tag  bool
 }
 
 type doc struct {
@@ -59,6 +159,7 @@ func renderSels(b *strings.Builder, sels []*sel, ind string) {
 				b.WriteString(s.alias + ": ")
 			}
 			b.WriteString(s.name)
+			b.WriteString(s.dirText())
 			if (len(s.sels) > 0 || s.braces) && !s.noBrace {
 				b.WriteString(" ")
 				renderSels(b, s.sels, ind+"  ")
@@ -68,10 +169,11 @@ func renderSels(b *strings.Builder, sels []*sel, ind string) {
 			if s.hasCond {
 				b.WriteString(" on " + s.cond)
 			}
+			b.WriteString(s.dirText())
 			b.WriteString(" ")
 			renderSels(b, s.sels, ind+"  ")
 		case 's':
-			b.WriteString("..." + s.name)
+			b.WriteString("..." + s.name + s.dirText())
 		}
 		b.WriteString("\n")
 	}
@@ -88,13 +190,30 @@ func (d *doc) render() string {
 			if op.name != "" {
 				b.WriteString(" " + op.name)
 			}
+			if len(op.vars) > 0 {
+				b.WriteString("(")
+				for i, v := range op.vars {
+					if i > 0 {
+						b.WriteString(", ")
+					}
+					b.WriteString("$" + v + ": Boolean!")
+				}
+				b.WriteString(")")
+			}
+			if op.tag {
+				b.WriteString(" @tag")
+			}
 			b.WriteString(" ")
 		}
 		renderSels(&b, op.sels, "")
 		b.WriteString("\n")
 	}
 	for _, f := range d.frags {
-		b.WriteString("fragment " + f.name + " on " + f.cond + " ")
+		b.WriteString("fragment " + f.name + " on " + f.cond)
+		if f.tag {
+			b.WriteString(" @tag")
+		}
+		b.WriteString(" ")
 		renderSels(&b, f.sels, "")
 		b.WriteString("\n")
 	}
